@@ -7,7 +7,7 @@
    PROPERTY layer (design level), and (b) prints the case as a JSON schedule for the Go replayer. *)
 EXTENDS Export, ExportDom, Json
 
-CONSTANTS Pool,      \* "path" | "attr" | "horizon" | "twice" | "inbound"
+CONSTANTS Pool,      \* "path" | "attr" | "horizon" | "twice" | "history" | "inbound"
           Slice      \* "all" | "quick": the quick tier thins the largest pool (attr)
 
 VARIABLE beh
@@ -128,6 +128,59 @@ TwicePool ==
          : loc \in {LPlain, LPlainX, LConfed}}
 
 ---------------------------------------------------------------------------
+(* pool "history": the per-neighbour AS_PATH options against loop prevention, with and without a
+   previous best route (`olds`) that the new best replaces implicitly.  New and old routes with
+   the target's AS in an AS_SEQUENCE, in an AS_SET, in both, or not at all; targets with and
+   without replace-peer-as / remove-private-as (also a peer in a private AS, whose AS
+   remove-private-as would strip from the path that the loop check looks at), a confederation
+   peer, and IBGP targets (only the one-sided rules apply to them). *)
+(* kf: the case meets KF-C09-override-withdraw-dropped (used only to bundle those cases into few
+   traces; the verdict is made by the trace spec) *)
+HistKf(loc, t, r, olds, wd) ==
+  LET owed == IF wd THEN MustWithdrawGone(r, t, loc) ELSE MustWithdraw(r, olds, t, loc)
+      gone == IF wd THEN r ELSE olds[1]
+  IN owed /\ t.rpeer /\ t.as \in ASSetOf(gone.aspath, {"SEQ", "SET"})
+ExpH(loc, t, r, olds) == [mode |-> "export", local |-> loc, peer |-> t, route |-> r, olds |-> olds, wd |-> FALSE,
+                          kf |-> HistKf(loc, t, r, olds, FALSE)]
+ExpW(loc, t, r) == [mode |-> "export", local |-> loc, peer |-> t, route |-> r, olds |-> <<r>>, wd |-> TRUE,
+                    kf |-> HistKf(loc, t, r, <<r>>, TRUE)]
+
+HistTargets(loc) ==
+  IF loc.confed THEN {Opt(Peer("C1", loc), "none", rp, 0) : rp \in BOOLEAN}
+                     \cup {Opt(Peer("E1", loc), "none", rp, 0) : rp \in BOOLEAN}
+  ELSE {Opt(Peer(x, loc), rpa, rp, 0) :
+          x \in {"E1", "EP"}, rp \in BOOLEAN,
+          rpa \in (IF Slice = "quick" THEN {"none", "all"} ELSE {"none", "all", "replace"})}
+       \cup {Opt(Peer("E1", loc), "none", TRUE, 777), Peer("I1", loc), Peer("R1", loc)}
+
+(* x = the target's AS *)
+HistShapes(f, x) == {
+  f \o <<Sg("SEQ", <<600>>)>>,
+  f \o <<Sg("SEQ", <<600, x>>)>>,
+  f \o <<Sg("SEQ", <<600>>), Sg("SET", <<x, 9>>)>>,
+  f \o <<Sg("SEQ", <<x, 600, x>>), Sg("SET", <<9, x>>)>> }
+
+First(s, loc) == IF Peer(s, loc).kind = "ebgp" THEN <<Sg("SEQ", <<Peer(s, loc).as>>)>>
+                 ELSE IF Peer(s, loc).kind = "confed" THEN <<Sg("CSEQ", <<Peer(s, loc).as>>)>>
+                 ELSE <<>>
+
+HistRoute(s, loc, p, c) ==
+  Route(Peer(s, loc), NhForm(1), TRUE, p, 0, 100, -1, "none", <<>>, <<>>, <<c>>)
+
+HistNew(loc, t) ==
+  UNION {{HistRoute(s, loc, p, 1) : p \in HistShapes(First(s, loc), t.as)} : s \in {"L", "E2", "E3", "I2", t.id}}
+
+HistOlds(loc, t) ==
+  {<<>>} \cup UNION {{<<HistRoute(s, loc, First(s, loc) \o <<Sg("SEQ", <<700>>)>>, 2)>>,
+                       <<HistRoute(s, loc, First(s, loc) \o <<Sg("SEQ", <<700, t.as>>)>>, 2)>>}
+                      : s \in {"L", "E2", t.id}}
+
+HistoryPool ==
+  UNION {UNION {{ExpH(loc, t, r, o) : r \in HistNew(loc, t), o \in HistOlds(loc, t)}
+                \cup {ExpW(loc, t, r) : r \in HistNew(loc, t)} : t \in HistTargets(loc)}
+         : loc \in {LPlain, LConfed}}
+
+---------------------------------------------------------------------------
 (* pool "inbound": histories of announcements of one peer for one prefix *)
 
 InPeers(loc) ==
@@ -190,6 +243,7 @@ Behaviours ==
     [] Pool = "attr"    -> AttrPool
     [] Pool = "horizon" -> HorizonPool
     [] Pool = "twice"   -> TwicePool
+    [] Pool = "history" -> HistoryPool
     [] Pool = "inbound" -> InboundPool
 
 Init == beh \in Behaviours
@@ -201,25 +255,49 @@ Emit == PrintT("VPOUT " \o ToJson(beh))
 ---------------------------------------------------------------------------
 (* design level: mechanism => property, on every enumerated case *)
 
+Olds == IF "olds" \in DOMAIN beh THEN beh.olds ELSE <<>>
+Wd == IF "wd" \in DOMAIN beh THEN beh.wd ELSE FALSE
 Targets == {beh.peer} \cup (IF "peer2" \in DOMAIN beh THEN {beh.peer2} ELSE {})
 
 D_C09_MayAdvertise ==
   beh.mode = "export" =>
     \A t \in Targets :
-      (MechAdvertise(beh.route, t, beh.local) = "yes" => MayAdvertise(beh.route, t, beh.local))
+      (MechAdvertiseW(beh.route, Olds, Wd, t, beh.local) = "yes" => MayAdvertise(beh.route, t, beh.local))
 
 D_C09_Attrs ==
   beh.mode = "export" =>
     \A t \in Targets :
-      (MechAdvertise(beh.route, t, beh.local) = "yes" =>
+      (MechAdvertiseW(beh.route, Olds, Wd, t, beh.local) = "yes" =>
          AttrsConform(MechAttrs(beh.route, t, beh.local), beh.route, t, beh.local))
+
+D_C09_Advertise ==
+  beh.mode = "export" =>
+    \A t \in Targets :
+      (~Wd /\ MustAdvertise(beh.route, t, beh.local)) => MechAdvertiseW(beh.route, Olds, Wd, t, beh.local) = "yes"
+
+(* the mechanism drops the withdrawals named by KF-C09-override-withdraw-dropped: tolerated here
+   exactly as in the trace spec *)
+D_C09_Withdraw_KF ==
+  beh.mode = "export" =>
+    \A t \in Targets :
+      LET owed == IF Wd THEN MustWithdrawGone(beh.route, t, beh.local) ELSE MustWithdraw(beh.route, Olds, t, beh.local)
+          gone == IF Wd THEN beh.route ELSE Olds[1]
+          m == MechAdvertiseW(beh.route, Olds, Wd, t, beh.local)
+      IN /\ (owed => (m = "withdraw" \/ (t.rpeer /\ m = "no" /\ t.as \in ASSetOf(gone.aspath, {"SEQ", "SET"}))))
+         /\ (Wd => m # "yes")
 
 (* the canonical copy of the property layer conforms to its own predicate (sanity of the layer) *)
 D_C09_Canonical ==
   beh.mode = "export" =>
     \A t \in Targets : AttrsConform(ExportAttrs(beh.route, t, beh.local), beh.route, t, beh.local)
 
-(* the receive-side mechanism does not check CLUSTER_LIST (KF-C09-cluster-loop-used): the design
+(* since repo commit ddcea20 the receive-side mechanism checks CLUSTER_LIST as well *)
+D_C09_Inbound ==
+  beh.mode = "inbound" =>
+    \A i \in DOMAIN beh.steps :
+      MustReject(beh.steps[i].route, beh.peer, beh.local) => ~MechUsed(beh.steps[i].route, beh.peer, beh.local)
+
+(* (before ddcea20) the receive-side mechanism does not check CLUSTER_LIST (KF-C09-cluster-loop-used): the design
    check tolerates exactly that *)
 D_C09_Inbound_KF ==
   beh.mode = "inbound" =>
